@@ -530,11 +530,20 @@ def extract_column_id(c):
   else:
     return c
 
+# The one NaN object used in lookup keys. A dict finds a NaN key only by identity (NaN != NaN), so
+# every NaN is replaced by this object, both when indexing records and when looking them up.
+_NAN = float('nan')
+
 def _extract(cell_value):
   """
   When cell_value is a Record, returns its rowId. Otherwise returns the value unchanged.
   This is to allow lookups to work with reference columns.
+
+  NaN values are all turned into the same object, so that records whose key is NaN can be looked
+  up (e.g. so that summary tables keep a single group for them, also after reloading the data).
   """
   if isinstance(cell_value, records.Record):
     return cell_value._row_id
+  if isinstance(cell_value, float) and cell_value != cell_value:
+    return _NAN
   return cell_value
